@@ -21,7 +21,7 @@ def _geo(pid, ctx, k_quick, k_thorough):
     res["interval_goals"], res["interval_goals_proved"] = int(m.group(1)), int(m.group(2))
     res["interval_goal_kinds"] = ("goals closed by the interval tactic: |model formula at the exact inputs - implementation output| <= tolerance "
                                   "(haversine 1e-14, metres->haversine 1e-14, DistanceTo via its haversine 1e-13, DestinationPoint latitude law 1e-12, "
-                                  "RectFromCenter latitude band 1e-9 deg and tangent-longitude law 1e-8, Circle point test against the stored haversine 1e-15)")
+                                  "RectFromCenter latitude band 1e-9 deg, tangent-longitude law in cosine form 1e-8 and in sine form 1e-6 relative, Circle point test against the stored haversine 1e-15)")
     if int(m.group(3)) > 0:
         rp = os.path.join(root, "replays", "%s-interval.txt" % pid)
         open(rp, "w").write("# property %s: the real-valued model coq/Sphere.v evaluated at these exact inputs does NOT enclose the\n"
